@@ -659,6 +659,14 @@ func TestC08(t *testing.T) {
 			in = c08Input{Kind: "modfile", Text: gen.Mutate(rt, base, corp.ModYAML, 3)}
 		case 8:
 			in = c08Input{Kind: "modfile", Text: c15GenManifest(rt).Text}
+		case 9:
+			// generated module sets with injected conflicts in random layouts (tabs, form feeds, comments, CRLF):
+			// the error paths of the merge locate declarations in the raw text
+			ms := gen.Modules(rt, gen.ModOpts{MaxConflicts: 3, MaxFiles: 4, Layout: true, Decoys: true, MultiDup: true})
+			for _, f := range ms.Files {
+				in.More = append(in.More, f.Text)
+			}
+			in.Kind = "merge"
 		default:
 			n := rapid.IntRange(1, 3).Draw(rt, "nFiles")
 			for i := 0; i < n; i++ {
